@@ -3,16 +3,16 @@ namespace Grog
 
 /-! ### the bytewise order -/
 
-theorem bytesLe_refl : ∀ a : Bytes, bytesLe a a = true
+theorem bytesLeH_refl : ∀ a : Bytes, bytesLeH a a = true
   | [] => rfl
-  | a :: as => by simp [bytesLe, bytesLe_refl as]
+  | a :: as => by simp [bytesLeH, bytesLeH_refl as]
 
-theorem bytesLe_total : ∀ a b : Bytes, (bytesLe a b || bytesLe b a) = true
-  | [], _ => by simp [bytesLe]
-  | _ :: _, [] => by simp [bytesLe]
+theorem bytesLeH_total : ∀ a b : Bytes, (bytesLeH a b || bytesLeH b a) = true
+  | [], _ => by simp [bytesLeH]
+  | _ :: _, [] => by simp [bytesLeH]
   | a :: as, b :: bs => by
-    have ih := bytesLe_total as bs
-    simp only [bytesLe]
+    have ih := bytesLeH_total as bs
+    simp only [bytesLeH]
     rcases Nat.lt_trichotomy a.toNat b.toNat with h | h | h
     · have : a < b := UInt8.lt_iff_toNat_lt.mpr h
       simp [this]
@@ -22,44 +22,44 @@ theorem bytesLe_total : ∀ a b : Bytes, (bytesLe a b || bytesLe b a) = true
     · have : b < a := UInt8.lt_iff_toNat_lt.mpr h
       simp [this]
 
-theorem bytesLe_trans : ∀ a b c : Bytes, bytesLe a b = true → bytesLe b c = true → bytesLe a c = true
-  | [], _, _, _, _ => by simp [bytesLe]
-  | _ :: _, [], _, h, _ => by simp [bytesLe] at h
-  | _ :: _, _ :: _, [], _, h => by simp [bytesLe] at h
+theorem bytesLeH_trans : ∀ a b c : Bytes, bytesLeH a b = true → bytesLeH b c = true → bytesLeH a c = true
+  | [], _, _, _, _ => by simp [bytesLeH]
+  | _ :: _, [], _, h, _ => by simp [bytesLeH] at h
+  | _ :: _, _ :: _, [], _, h => by simp [bytesLeH] at h
   | a :: as, b :: bs, c :: cs, h1, h2 => by
-    simp only [bytesLe, Bool.or_eq_true, decide_eq_true_eq, Bool.and_eq_true, beq_iff_eq] at *
+    simp only [bytesLeH, Bool.or_eq_true, decide_eq_true_eq, Bool.and_eq_true, beq_iff_eq] at *
     rcases h1 with h1 | ⟨h1, h1'⟩ <;> rcases h2 with h2 | ⟨h2, h2'⟩
     · left; exact UInt8.lt_trans h1 h2
     · left; subst h2; exact h1
     · left; subst h1; exact h2
-    · right; exact ⟨h1.trans h2, bytesLe_trans as bs cs h1' h2'⟩
+    · right; exact ⟨h1.trans h2, bytesLeH_trans as bs cs h1' h2'⟩
 
-theorem bytesLe_antisymm : ∀ a b : Bytes, bytesLe a b = true → bytesLe b a = true → a = b
+theorem bytesLeH_antisymm : ∀ a b : Bytes, bytesLeH a b = true → bytesLeH b a = true → a = b
   | [], [], _, _ => rfl
-  | [], _ :: _, _, h => by simp [bytesLe] at h
-  | _ :: _, [], h, _ => by simp [bytesLe] at h
+  | [], _ :: _, _, h => by simp [bytesLeH] at h
+  | _ :: _, [], h, _ => by simp [bytesLeH] at h
   | a :: as, b :: bs, h1, h2 => by
-    simp only [bytesLe, Bool.or_eq_true, decide_eq_true_eq, Bool.and_eq_true, beq_iff_eq] at *
+    simp only [bytesLeH, Bool.or_eq_true, decide_eq_true_eq, Bool.and_eq_true, beq_iff_eq] at *
     rcases h1 with h1 | ⟨h1, h1'⟩ <;> rcases h2 with h2 | ⟨h2, h2'⟩
     · exact absurd (UInt8.lt_trans h1 h2) (UInt8.lt_irrefl _)
     · subst h2; exact absurd h1 (UInt8.lt_irrefl _)
     · subst h1; exact absurd h2 (UInt8.lt_irrefl _)
-    · subst h1; rw [bytesLe_antisymm as bs h1' h2']
+    · subst h1; rw [bytesLeH_antisymm as bs h1' h2']
 
 /-! ### sorting is canonical -/
 
 theorem sortBytes_perm (l : List Bytes) : (sortBytes l).Perm l := List.mergeSort_perm l _
 
-theorem sortBytes_pairwise (l : List Bytes) : (sortBytes l).Pairwise (fun a b => bytesLe a b = true) :=
-  List.pairwise_mergeSort (le := bytesLe) bytesLe_trans bytesLe_total l
+theorem sortBytes_pairwise (l : List Bytes) : (sortBytes l).Pairwise (fun a b => bytesLeH a b = true) :=
+  List.pairwise_mergeSort (le := bytesLeH) bytesLeH_trans bytesLeH_total l
 
 theorem sortBytes_eq_iff (a b : List Bytes) : sortBytes a = sortBytes b ↔ a.Perm b := by
   constructor
   · intro h
     exact ((sortBytes_perm a).symm.trans (h ▸ List.Perm.refl _)).trans (sortBytes_perm b)
   · intro h
-    apply List.Perm.eq_of_pairwise (le := fun a b => bytesLe a b = true)
-    · intro x y _ _ h1 h2; exact bytesLe_antisymm x y h1 h2
+    apply List.Perm.eq_of_pairwise (le := fun a b => bytesLeH a b = true)
+    · intro x y _ _ h1 h2; exact bytesLeH_antisymm x y h1 h2
     · exact sortBytes_pairwise a
     · exact sortBytes_pairwise b
     · exact ((sortBytes_perm a).trans h).trans (sortBytes_perm b).symm
@@ -67,77 +67,77 @@ theorem sortBytes_eq_iff (a b : List Bytes) : sortBytes a = sortBytes b ↔ a.Pe
 theorem mem_sortBytes {l : List Bytes} {x : Bytes} : x ∈ sortBytes l ↔ x ∈ l :=
   (sortBytes_perm l).mem_iff
 
-/-! ### compact (consecutive de-duplication) of a sorted list -/
+/-! ### compactB (consecutive de-duplication) of a sorted list -/
 
-theorem mem_compact : ∀ {l : List Bytes} {x : Bytes}, x ∈ compact l ↔ x ∈ l
-  | [], _ => by simp [compact]
-  | [a], _ => by simp [compact]
+theorem mem_compactB : ∀ {l : List Bytes} {x : Bytes}, x ∈ compactB l ↔ x ∈ l
+  | [], _ => by simp [compactB]
+  | [a], _ => by simp [compactB]
   | a :: b :: t, x => by
-    have ih := @mem_compact (b :: t) x
-    simp only [compact]
+    have ih := @mem_compactB (b :: t) x
+    simp only [compactB]
     split
     · rename_i h; subst h
       rw [ih]; simp
     · simp only [List.mem_cons] at ih ⊢
       rw [ih]
 
-def StrictLe (a b : Bytes) : Prop := bytesLe a b = true ∧ a ≠ b
+def StrictLe (a b : Bytes) : Prop := bytesLeH a b = true ∧ a ≠ b
 
-theorem compact_pairwise : ∀ {l : List Bytes}, l.Pairwise (fun a b => bytesLe a b = true) →
-    (compact l).Pairwise StrictLe
-  | [], _ => by simp [compact]
-  | [a], _ => by simp [compact]
+theorem compactB_pairwise : ∀ {l : List Bytes}, l.Pairwise (fun a b => bytesLeH a b = true) →
+    (compactB l).Pairwise StrictLe
+  | [], _ => by simp [compactB]
+  | [a], _ => by simp [compactB]
   | a :: b :: t, h => by
-    have hbt : (b :: t).Pairwise (fun a b => bytesLe a b = true) := h.tail
-    have ih := compact_pairwise hbt
-    simp only [compact]
+    have hbt : (b :: t).Pairwise (fun a b => bytesLeH a b = true) := h.tail
+    have ih := compactB_pairwise hbt
+    simp only [compactB]
     split
     · exact ih
     · rename_i hab
       refine List.Pairwise.cons ?_ ih
       intro x hx
-      have hx' : x ∈ b :: t := mem_compact.mp hx
-      have hax : bytesLe a x = true := List.rel_of_pairwise_cons h hx'
+      have hx' : x ∈ b :: t := mem_compactB.mp hx
+      have hax : bytesLeH a x = true := List.rel_of_pairwise_cons h hx'
       refine ⟨hax, ?_⟩
       intro e; subst e
-      have hab' : bytesLe a b = true := List.rel_of_pairwise_cons h List.mem_cons_self
+      have hab' : bytesLeH a b = true := List.rel_of_pairwise_cons h List.mem_cons_self
       rcases List.mem_cons.mp hx' with e | hm
       · exact hab e
-      · have hba : bytesLe b a = true := List.rel_of_pairwise_cons hbt hm
-        exact hab (bytesLe_antisymm a b hab' hba)
+      · have hba : bytesLeH b a = true := List.rel_of_pairwise_cons hbt hm
+        exact hab (bytesLeH_antisymm a b hab' hba)
 
 theorem strict_sorted_ext {l₁ l₂ : List Bytes} (h₁ : l₁.Pairwise StrictLe) (h₂ : l₂.Pairwise StrictLe)
     (h : ∀ x, x ∈ l₁ ↔ x ∈ l₂) : l₁ = l₂ := by
   have n₁ : l₁.Nodup := h₁.imp (fun hab => hab.2)
   have n₂ : l₂.Nodup := h₂.imp (fun hab => hab.2)
   have hp : l₁.Perm l₂ := (List.perm_ext_iff_of_nodup n₁ n₂).mpr h
-  apply List.Perm.eq_of_pairwise (le := fun a b => bytesLe a b = true)
-  · intro x y _ _ h1 h2; exact bytesLe_antisymm x y h1 h2
+  apply List.Perm.eq_of_pairwise (le := fun a b => bytesLeH a b = true)
+  · intro x y _ _ h1 h2; exact bytesLeH_antisymm x y h1 h2
   · exact h₁.imp (fun hab => hab.1)
   · exact h₂.imp (fun hab => hab.1)
   · exact hp
 
-theorem mem_compact_sort {l : List Bytes} {x : Bytes} : x ∈ compact (sortBytes l) ↔ x ∈ l :=
-  mem_compact.trans mem_sortBytes
+theorem mem_compactB_sort {l : List Bytes} {x : Bytes} : x ∈ compactB (sortBytes l) ↔ x ∈ l :=
+  mem_compactB.trans mem_sortBytes
 
-theorem compact_sort_eq_iff (a b : List Bytes) :
-    compact (sortBytes a) = compact (sortBytes b) ↔ ∀ x, x ∈ a ↔ x ∈ b := by
+theorem compactB_sort_eq_iff (a b : List Bytes) :
+    compactB (sortBytes a) = compactB (sortBytes b) ↔ ∀ x, x ∈ a ↔ x ∈ b := by
   constructor
   · intro h x
-    rw [← mem_compact_sort (l := a), ← mem_compact_sort (l := b), h]
+    rw [← mem_compactB_sort (l := a), ← mem_compactB_sort (l := b), h]
   · intro h
-    apply strict_sorted_ext (compact_pairwise (sortBytes_pairwise a)) (compact_pairwise (sortBytes_pairwise b))
+    apply strict_sorted_ext (compactB_pairwise (sortBytes_pairwise a)) (compactB_pairwise (sortBytes_pairwise b))
     intro x
-    rw [mem_compact_sort, mem_compact_sort]; exact h x
+    rw [mem_compactB_sort, mem_compactB_sort]; exact h x
 
 /-! ### sorting key/value entries by key is canonical for maps (distinct keys) -/
 
 theorem sortKV_perm (l : List (Bytes × Bytes)) : (sortKV l).Perm l := List.mergeSort_perm l _
 
 theorem sortKV_pairwise (l : List (Bytes × Bytes)) :
-    (sortKV l).Pairwise (fun a b => bytesLe a.1 b.1 = true) :=
-  List.pairwise_mergeSort (le := fun a b => bytesLe a.1 b.1)
-    (fun a b c => bytesLe_trans a.1 b.1 c.1) (fun a b => bytesLe_total a.1 b.1) l
+    (sortKV l).Pairwise (fun a b => bytesLeH a.1 b.1 = true) :=
+  List.pairwise_mergeSort (le := fun a b => bytesLeH a.1 b.1)
+    (fun a b c => bytesLeH_trans a.1 b.1 c.1) (fun a b => bytesLeH_total a.1 b.1) l
 
 theorem eq_of_key_eq {l : List (Bytes × Bytes)} (hn : (l.map Prod.fst).Nodup) {x y : Bytes × Bytes}
     (hx : x ∈ l) (hy : y ∈ l) (h : x.1 = y.1) : x = y := by
@@ -157,11 +157,11 @@ theorem sortKV_eq_iff (a b : List (Bytes × Bytes)) (hn : (a.map Prod.fst).Nodup
   · intro h
     exact ((sortKV_perm a).symm.trans (h ▸ List.Perm.refl _)).trans (sortKV_perm b)
   · intro h
-    apply List.Perm.eq_of_pairwise (le := fun a b => bytesLe a.1 b.1 = true)
+    apply List.Perm.eq_of_pairwise (le := fun a b => bytesLeH a.1 b.1 = true)
     · intro x y hx hy h1 h2
       have hx' : x ∈ a := (sortKV_perm a).mem_iff.mp hx
       have hy' : y ∈ a := h.mem_iff.mpr ((sortKV_perm b).mem_iff.mp hy)
-      exact eq_of_key_eq hn hx' hy' (bytesLe_antisymm _ _ h1 h2)
+      exact eq_of_key_eq hn hx' hy' (bytesLeH_antisymm _ _ h1 h2)
     · exact sortKV_pairwise a
     · exact sortKV_pairwise b
     · exact ((sortKV_perm a).trans h).trans (sortKV_perm b).symm
@@ -256,19 +256,19 @@ theorem kvEnc_append_inj {xs ys : List (Bytes × Bytes)} {r r' : Bytes} (hx : Sm
 
 /-! ### helpers for the C09 theorems -/
 
-theorem length_compact_le : ∀ l : List Bytes, (compact l).length ≤ l.length
-  | [] => by simp [compact]
-  | [a] => by simp [compact]
+theorem length_compactB_le : ∀ l : List Bytes, (compactB l).length ≤ l.length
+  | [] => by simp [compactB]
+  | [a] => by simp [compactB]
   | a :: b :: t => by
-    have ih := length_compact_le (b :: t)
-    simp only [compact]; split <;> simp at * <;> omega
+    have ih := length_compactB_le (b :: t)
+    simp only [compactB]; split <;> simp at * <;> omega
 
 theorem smallList_sort {l : List Bytes} (h : SmallList l) : SmallList (sortBytes l) :=
   ⟨by rw [(sortBytes_perm l).length_eq]; exact h.1, fun x hx => h.2 x (mem_sortBytes.mp hx)⟩
 
-theorem smallList_canon {l : List Bytes} (h : SmallList l) : SmallList (compact (sortBytes l)) :=
-  ⟨Nat.lt_of_le_of_lt (length_compact_le _) (smallList_sort h).1,
-   fun x hx => h.2 x (mem_compact_sort.mp hx)⟩
+theorem smallList_canon {l : List Bytes} (h : SmallList l) : SmallList (compactB (sortBytes l)) :=
+  ⟨Nat.lt_of_le_of_lt (length_compactB_le _) (smallList_sort h).1,
+   fun x hx => h.2 x (mem_compactB_sort.mp hx)⟩
 
 theorem smallKV_sort {l : List (Bytes × Bytes)} (h : SmallKV l) : SmallKV (sortKV l) :=
   ⟨by rw [(sortKV_perm l).length_eq]; exact h.1, fun x hx => h.2 x ((sortKV_perm l).mem_iff.mp hx)⟩
